@@ -240,6 +240,56 @@ def r3_complete_scaling_list(idx, r):
               msg="rotating a block must ADD the rotation to its orientation; setting it replaces the source's orientation, so a copy of an already rotated assembly ends at 120/240 instead of source+120/240")
 
 
+def r4_extensive_params_are_volume_integrated(idx, r):
+    """The converters triple (and restore) exactly the BLOCK parameters declared at ParamLocation.VOLUME_INTEGRATED. A block
+    parameter whose unit is a bare extensive unit (a mass in kg / g, a power in W / MW) is such a total and must
+    be declared there - declared AVERAGE it silently drops out of the scaling and the full-core total is not three times
+    the third-core one."""
+    EXT = {"units.KG", "units.GRAMS", "units.WATTS", "units.MW"}
+    n = 0
+    # BLOCK parameters only: the changer builds its list from the block parameter definitions
+    mods = [m for m in idx.modules.values() if m.name.startswith("armi.") and ".tests" not in m.name
+            and any(isinstance(x, ast.FunctionDef) and "block" in x.name.lower() and "param" in x.name.lower() for x in ast.walk(m.tree))]
+    if not any(m.name == "armi.reactor.blockParameters" for m in mods):
+        raise AnchorMissing("armi.reactor.blockParameters")
+    for m in mods:
+        modname = m.name
+        par = m.parents()
+        for c in ast.walk(m.tree):
+            if not (isinstance(c, ast.Call) and call_attr(c) == "defParam" and c.args):
+                continue
+            nd0, infn = c, None
+            while nd0 in par:
+                nd0 = par[nd0]
+                if isinstance(nd0, ast.FunctionDef):
+                    infn = nd0.name if infn is None or ("block" in nd0.name.lower()) else infn
+            if infn is None or "block" not in infn.lower():
+                continue
+            kw = {k.arg: k.value for k in c.keywords}
+            u = kw.get("units")
+            if u is None or dotted(u) not in EXT:
+                continue
+            loc = kw.get("location")
+            if loc is None:
+                nd = c
+                while nd in par and loc is None:
+                    nd = par[nd]
+                    if isinstance(nd, ast.With):
+                        for it in nd.items:
+                            if isinstance(it.context_expr, ast.Call) and call_attr(it.context_expr) == "createBuilder":
+                                loc = next((k.value for k in it.context_expr.keywords if k.arg == "location"), None)
+            name = idx.fold(m, c.args[0]) if not isinstance(c.args[0], ast.Constant) else c.args[0].value
+            n += 1
+            if loc is None:
+                r.undecided(f"{modname.rsplit('.', 1)[-1]}:{name}", m, "location not found", node=c)
+                continue
+            r.require(dotted(loc).endswith("VOLUME_INTEGRATED"), f"{modname.rsplit('.', 1)[-1]}:{name}", m, node=c,
+                      msg=f"parameter `{name}` has the extensive unit {dotted(u)} but is declared at {dotted(loc)}: it is not among the parameters scaled when a third core is grown "
+                          "to a full core, so its full-core total is not three times the third-core total")
+    if n < 6:
+        raise AnalysisError(f"only {n} parameters with extensive units found")
+
+
 def run(idx, chk):
     chk.explanation = (
         "C13: in ThirdCoreHexToFullCoreChanger.convert every symmetric location gets exactly one deep-copied, uniquely named, rotated and recorded "
@@ -255,3 +305,5 @@ def run(idx, chk):
                  lambda r: r2_scaling(idx, r), floor=12, necessary="the centre assembly counts once; restore returns the parameters")
     chk.run_rule("R13.3", "the scaled list is the complete volume-integrated list; symmetry changes and moves drop caches unconditionally; rotation adds to the orientation", lambda r: r3_complete_scaling_list(idx, r), floor=5,
                  necessary="'volume and every volume-integrated total are three times the third-core values'; 'rotated into place'")
+    chk.run_rule("R13.4", "block parameters with a bare extensive unit (kg, g, W, MW) are declared VOLUME_INTEGRATED", lambda r: r4_extensive_params_are_volume_integrated(idx, r), floor=6,
+                 necessary="'every volume-integrated total [is] three times the third-core value': the declaration is what puts a total on the scaled list")
